@@ -41,7 +41,7 @@ Section Spec.
               match elem_step iparse cur n l0 rest with
               | SElem k src consumed =>
                   rbind (flat_loop inc fuel' fi cur (n + N.of_nat consumed) (skipn consumed ls))
-                        (fun out => Ok ((cur, Element k src (fi_path fi) (fi_chain fi)) :: out))
+                        (fun out => Ok ((cur, Element k src (fi_path fi) (fi_chain fi) (elem_desc cur l0 rest)) :: out))
               | SIncl src tok =>
                   rbind (inc cur src tok)
                         (fun spliced => rbind (flat_loop inc fuel' fi cur (n + 1) rest)
@@ -90,7 +90,7 @@ Definition ekind_eqb (a b : ekind) : bool :=
   match a, b with KInstr, KInstr | KComment, KComment | KEmpty, KEmpty => true | _, _ => false end.
 Definition element_eqb (a b : element) : bool :=
   ekind_eqb (e_kind a) (e_kind b) && lineseq_eqb (e_src a) (e_src b) && text_eqb (e_path a) (e_path b) &&
-  list_eqb loc_eqb (e_chain a) (e_chain b).
+  list_eqb loc_eqb (e_chain a) (e_chain b) && option_eqb text_eqb (e_desc a) (e_desc b).
 Definition why_eqb (a b : access_why) : bool :=
   match a, b with Missing, Missing | Cyclic, Cyclic => true | _, _ => false end.
 Definition error_eqb (a b : error) : bool :=
